@@ -65,6 +65,14 @@ def _check_one(pt, seqfuncs, s):
                     bad = f'serialize returned {type(t).__name__}'
             except Exception as e:  # noqa
                 bad = f'parse accepted the string but serialize(include_plus={plus}) raises {type(e).__name__}: {e}'
+    if obj is not None and not hasattr(obj, 'annotations'):
+        for name, fn in (('mass', pt.mass), ('comp', pt.comp), ('mz', pt.mz)):
+            try:
+                L.with_alarm(lambda: fn(s), 5.0)
+            except ValueError:
+                pass
+            except Exception as e:  # noqa
+                bad = bad or f'parse accepted the string but {name}({s!r}) raises {type(e).__name__}: {e} (not a ValueError)'
     try:
         v = seqfuncs.is_sequence_valid(s)
         single = obj is not None and not hasattr(obj, 'annotations')     # valid = parses to ONE annotation
@@ -201,6 +209,21 @@ def run(chk):
         for _ in range(12000):
             k = rng.choice([5, 5, 6])
             sample.append(''.join(rng.choice(L.TOKENS) for _ in range(k)))
+
+    # ------------------------------------------------------------------ every short VALUE at every modification position
+    # (the fully exhaustive <=5-token enumeration above reaches these only in the thorough tier: '<[@[>' has 5 tokens)
+    vals1 = [''] + L.TOKENS
+    vals2 = vals1 + [a + b for a in L.TOKENS for b in L.TOKENS]
+    structured = []
+    for v in vals2:
+        structured += ['P[%s]E' % v, '{%s}PE' % v, '[%s]-PE' % v, '[%s]?PE' % v, 'PE-[%s]' % v, '(PE)[%s]' % v, 'PE/1[%s]' % v,
+                       '<%s>PE' % v, 'PE/1[+Na+][%s]' % v, 'PE/%s' % v, 'PE[Oxidation]^%s' % v]
+        for t in vals1:
+            structured.append('<[%s]@%s>PE' % (v, t))
+    if quick:
+        structured = structured[:: 2] + ['<[@[>', 'PE/2[1]', 'PE/2[+Na+][+Foo+]', '<[Foo]@C>PE']
+    chk.count('structured value strings', len(structured))
+    chk.oracle('exception_class_structured', structured, oracle_exc, nontrivial_fn=lambda s: len(s) > 3)
 
     # ------------------------------------------------------------------ random <= 40 tokens, structured noise
     rnd = []
@@ -356,7 +379,7 @@ def run(chk):
         nb_cases.append(('isotope-labels', rules(['[Oxidation]@M', bad]), rules(['[Oxidation]@M']), rules([bad])))
     # charge adducts: one bracket group, comma separated ions
     GOOD_ADD = ['+H+', '+Na+', '+K+', '-H+', '+2Na+']
-    BAD_ADD = ['+Foo+', 'Foo', '+2Xx+', '', '+', '2+', 'NotAnIon+', '+H+Foo']
+    BAD_ADD = ['+Foo+', 'Foo', '+2Xx+', '', '+', '2+', 'NotAnIon+', '+H+Foo', '1', '1.5', '-1', '+']
 
     def adducts(ions):
         return SEQ + '/2[' + ','.join(ions) + ']'
@@ -367,6 +390,27 @@ def run(chk):
             for arr in ([bad], [g1, bad], [bad, g1], [g1, bad, g2], [g1, g2, bad], [bad, g1, g2]):
                 good = [x for x in arr if x is not bad]
                 nb_cases.append(('adducts', adducts(arr), adducts(good) if good else SEQ + '/2', adducts([bad])))
+    # several adduct GROUPS: every group counts and is validated
+    def adduct_groups(ions):
+        return SEQ + '/2' + ''.join('[' + x + ']' for x in ions)
+
+    for bad in BAD_ADD:
+        for g1 in GOOD_ADD[:3]:
+            g2 = rng.choice(GOOD_ADD)
+            for arr in ([g1, bad], [bad, g1], [g1, bad, g2], [g1, g2, bad]):
+                good = [x for x in arr if x is not bad]
+                nb_cases.append(('adduct-groups', adduct_groups(arr), adduct_groups(good), adduct_groups([bad])))
+    # a global rule whose target residue does not occur in the sequence is resolved all the same
+    for bad in bads:
+        for arr in (['[%s]@C' % bad], ['[Oxidation]@M', '[%s]@C' % bad], ['[%s]@C' % bad, '[Oxidation]@C'],
+                    ['[%s]@W,C' % bad], ['[Oxidation][%s]@C' % bad]):
+            good = [x for x in arr if bad not in x or bad == '']
+            if bad == '':
+                good = [x for x in arr if x.startswith('[Oxidation]@')]
+            nb_cases.append(('static-absent-target', rules(arr), rules(good), rules(['[%s]@C' % bad])))
+    # targets are literal text, never patterns
+    for tgt in ('.', '(', '[', 'P|E', '*', '\\', '^P', '$', '?', '+', '{2}'):
+        nb_cases.append(('static-target-literal', rules(['[NotAMod]@' + tgt]), rules([]), rules(['[NotAMod]@' + tgt])))
     chk.count('deferred-validation neighbour cases', len(nb_cases))
 
     FUNCS = (('mass', pt.mass), ('comp', pt.comp), ('comp_mass', pt.comp_mass), ('mz', pt.mz),
@@ -390,12 +434,20 @@ def run(chk):
         except Exception as e:  # noqa
             return f'parse raises {type(e).__name__}'
         for name, fn in FUNCS:
-            if name == 'condense_static_mods' and not kind.startswith('static'):
-                continue
+            if name == 'condense_static_mods' and (not kind.startswith('static') or kind in ('static-absent-target', 'static-target-literal')):
+                continue    # a purely textual rewrite: it resolves no names, and a rule without target has nothing to rewrite
             st, val = call(fn, text)
             if st == 'exc':
                 return f'{name}({text!r}) raises {val} (not a ValueError)'
             if st == 've':
+                continue
+            if kind == 'static-absent-target':
+                # the rule must be resolved exactly as if its target occurred (comp keeps unknown element symbols of a
+                # Formula: that is not an error with a target present, so it is none without)
+                st_present, _ = call(fn, text.replace('@C>', '@M>').replace('@W,C>', '@W,M>'))
+                if st_present == 've':
+                    return (f'{name}({text!r}) = {val!r}: the rule is not resolved because its target residue does not occur '
+                            f'(with the target present the call raises a ValueError)')
                 continue
             st_alone, _ = call(fn, alone)
             if st_alone == 've':
@@ -574,6 +626,9 @@ def run(chk):
         for prm in one_factor_params():
             v = rng.choice(['Oxidation', 'Phospho', 'Formula:C2H2O'])
             vc_cases.append((kind, mk([v]), mk([]), prm))
+    for g1, g2 in itertools.permutations(['+Na+', '+K+', '+Li+', '-H+'], 2):     # a second adduct group counts
+        for extra in ({}, {'monoisotopic': False}, {'charge': 1}):
+            vc_cases.append(('second adduct group', SEQ + '/2[%s][%s]' % (g1, g2), SEQ + '/2[%s]' % g1, dict(extra)))
     chk.oracle('valid_values_count_for_all_parameters', vc_cases, o_valid_counts,
                key_fn=lambda c: c[1] + repr(sorted(c[3].items())))
 
